@@ -144,7 +144,9 @@ def predicate(case):
                 fails.append("encoding of %d buckets has %d bytes" % (n, ln))
             if idx != START - k:
                 fails.append("encoded index %d after %d secrets" % (idx, k))
-            for b, (bi, bh) in enumerate(bks):
+            # the per-bucket invariant is a property of states REACHABLE by inserts;
+            # a deliberately damaged loaded store (kind tamper) is not one
+            for b, (bi, bh) in enumerate(bks if case["kind"] != "tamper" else []):
                 want = _bucket_index(idx, b)
                 if want is None or bi != want:
                     fails.append("encoded bucket %d holds index %d, most recent with %d trailing "
